@@ -308,13 +308,13 @@ func c52Space(env *mc.Env) (cases []*c52Case, desc string) {
 	for _, t := range []ty{tI, tO} {
 		slotSet[t] = leavesOf(t)
 	}
+	smallSlotSet[tI] = append(append([]*node(nil), slotSet[tI]...), leaf(tI, 3))
 	slotSet[tI] = append(slotSet[tI], leaf(tI, 2), leaf(tI, 3)) // 3 is out of range for the 3-element targets
-	smallSlotSet[tI] = slotSet[tI]
 	for _, n := range rep1[tI] {
 		if slotOps[n.Op] {
 			slotSet[tI] = append(slotSet[tI], n)
 		}
-		if n.Op == "I/" || n.Op == "??I" || n.Op == "force" {
+		if n.Op == "I/" || n.Op == "??I" {
 			smallSlotSet[tI] = append(smallSlotSet[tI], n)
 		}
 	}
@@ -476,7 +476,7 @@ func replayC52(env *mc.Env, raw json.RawMessage) (bool, string) {
 
 func init() {
 	mc.Register(&mc.Check{
-		ID: "C52",
+		ID:   "C52",
 		Rule: "every expression tree of the stated space (all operator forms over logging leaves t(k,v) with every leaf value at depth 1; every nesting of class-representative operators at depth 2; depth-3 spines in the thorough tier) and every statement form (assignment to a[i][j] / a[i].f / d[k] / through a reference, swap, if-let, create, emit, call with a moved create) with every slot filler is run in a script on the interpreter and on the VM; a definitional evaluator (left to right, exactly once, short-circuit, targets before value) predicts the log of leaf keys, the value, the events and whether the case aborts; non-trivial = distinct case whose predicted log has >= 2 entries, skips an operand, or aborts midway",
 		Assumptions: []string{
 			"the host's ProgramLog order is the evaluation order of the log calls",
